@@ -153,6 +153,15 @@ func verifyFunc(w *world, fn *ssa.Function, lite bool, depth int, exclude []stri
 		}
 		g.oblige(obligation{name: "cover:" + fnKeyQ(fn) + ":some-return-reachable", kind: "cover", guard: "true", cond: cond, cover: true})
 	}
+	if c := w.contractOf(fn); c != nil && !lite {
+		// vacuity guard: an assertat clause whose event never occurs decides nothing
+		for _, a := range c.assertAts {
+			if !a.seen {
+				g.oblige(obligation{name: "assertat:" + fnKeyQ(fn) + ":" + labelOr(a.cl.label, a.cl.expr) + ":event-not-found", kind: "assert", guard: "true", cond: "false"})
+			}
+			a.seen = false
+		}
+	}
 	if c := w.contractOf(fn); c != nil && lite {
 		// vacuity guard of the order rules: a rule whose second event never occurs in the function decides nothing
 		for _, o := range c.orders {
